@@ -1,4 +1,5 @@
 ID = "C09ring"
+ANCHOR_ID = "C09"
 N_QUICK = 300
 N_THOROUGH = 6000
 MODEL_SHOW = "run"
